@@ -116,8 +116,16 @@ InObs == [r \in RX |-> [p \in DOMAIN Input[r] |->
 Viol == Violations(InObs, pw, Skew, pcfg, precs, ptab, TRUE)
 AbsHolds == Viol = {}
 
-(* the inputs of the model are admissible and the wire is their encoding *)
-InputAdmissible == InputOk(InObs)
+(* Only PrintRec changes what the clauses read in a way that can falsify    *)
+(* one (recs, tab); Deliver only adds send times (more candidate closers),   *)
+(* the other actions leave the observation untouched.  So the invariant is   *)
+(* checked as an action property on the PrintRec steps (and initially): the  *)
+(* clauses recompute parities, which is too costly for every state.          *)
+AbsStep == [][pnext' # pnext => Violations(InObs, pw, Skew, pcfg, precs, ptab, TRUE)' = {}]_<<pvars, dvars>>
+
+(* the inputs of the model are admissible (constant level: used in ASSUME)  *)
+InputAdmissible == InputOk([r \in RX |-> [p \in DOMAIN Input[r] |->
+                      [fr |-> Input[r][p].fr, at |-> 0, dec |-> Input[r][p].dec]]])
 
 (* sanity: the composition does what Dedup.tla promises (its own invariants) *)
 DedupInv == D!HeapCacheAgree /\ D!Conservation /\ D!RecordShape
